@@ -1,5 +1,6 @@
 """C13 - abandoning the event loop at any event releases the socket (and selector)."""
 import gc
+import os
 
 from .. import env
 from .. import gen
@@ -10,7 +11,7 @@ from ..ref import ws as refws
 LEVEL = 'fault_enumeration'
 TECHNIQUE = 'runtime monitoring with abandonment enumeration (every event index x 4 mechanisms), resource-release oracle on simulated and real sockets'
 BUDGET_S = {'quick': 30, 'thorough': 180}
-REQUIRED = {'all': ['oracle.abandon_points_checked', 'oracle.sockets_checked', 'oracle.selectors_checked', 'oracle.real_socket_runs']}
+REQUIRED = {'all': ['oracle.real_tls_runs', 'oracle.abandon_points_checked', 'oracle.sockets_checked', 'oracle.selectors_checked', 'oracle.real_socket_runs']}
 RULE = ('scenarios that between them yield every event kind (Connecting, Connected - also via proxy and TLS -, '
         'Ready, Poll produced while draining a read and idle Poll produced by a selector timeout, Text, Binary, '
         'Ping, Pong, Closing, Closed, ProtocolError critical and non-critical, Rejected, Unresponsive, '
@@ -133,7 +134,10 @@ def cases(tier, seed, i, n):
         for k in (2, 3, 4):
             for call in ('send_text', 'send_ping', 'close'):
                 yield dict(kind='gc-in-write', k=k, call=call)
-        reals = [('rst', 3), ('fin', 3), ('text', 1), ('text', 2), ('text', 3), ('text', 4), ('idle', 4), ('idle', 5)]
+        # real TLS on loopback (certificate from the fixtures): the peer answers the upgrade, sends two messages and
+        # then goes quiet - it neither reads nor closes - while the consumer stops iterating
+        reals = [('tls-quiet', 3), ('tls-quiet', 5), ('tls-quiet', 2),
+                 ('rst', 3), ('fin', 3), ('text', 1), ('text', 2), ('text', 3), ('text', 4), ('idle', 4), ('idle', 5)]
         for r, (mode, k) in enumerate(reals):
             for mech in MECHS[:4] if tier == 'thorough' else (MECHS[r % 4], MECHS[(r + 1) % 4]):
                 yield dict(kind='real', mode=mode, k=k, mech=mech)
@@ -399,12 +403,19 @@ def run_real(case, acc):
     srv, port = realnet._listen()
     done = threading.Event()
 
+    tls = mode.startswith('tls')
+
     def serve():
         try:
             conn, _ = srv.accept()
+            if tls:
+                import ssl
+                ctx = ssl.SSLContext(ssl.PROTOCOL_TLS_SERVER)
+                ctx.load_cert_chain(realnet.FIXTURES + '/cert.pem', realnet.FIXTURES + '/key.pem')
+                conn = ctx.wrap_socket(conn, server_side=True)
             req = realnet._read_request(conn)
             out = refhttp.make_response(req, {})
-            if mode in ('text', 'rst', 'fin'):
+            if mode in ('text', 'rst', 'fin', 'tls-quiet'):
                 out += F(1, b'hello') + F(2, b'x')
             conn.sendall(out)
             if mode == 'rst':
@@ -415,7 +426,7 @@ def run_real(case, acc):
                 time.sleep(0.05)
                 conn.close()
             else:
-                done.wait(5)
+                done.wait(30 if tls else 5)
                 conn.close()
         except Exception:
             pass
@@ -427,9 +438,46 @@ def run_real(case, acc):
     before = realnet.open_fds()
     th.start()
     S, cap, sels = realnet.make_cap_session(record_selector=True)
-    ws = env.WebSocket('ws://127.0.0.1:%d/' % port, proxies={})
+    ws = env.WebSocket('%s://127.0.0.1:%d/' % ('wss' if tls else 'ws', port), proxies={})
     t0 = time.monotonic()
-    seen = abandon(lambda: ws.connect(session_class=S, poll=0.1, ping_rate=0), ws, k, mech)
+    if tls:
+        # the abandonment runs on a thread of its own: if it does not come back, where it is stuck decides
+        box = {}
+
+        def consumer():
+            box['seen'] = abandon(lambda: ws.connect(session_class=S, poll=0.1, ping_rate=0), ws, k, mech)
+        ct = threading.Thread(target=consumer, daemon=True)
+        ct.start()
+        ct.join(12)
+        acc.count2('oracle', 'real_tls_runs')
+        if ct.is_alive():
+            import sys
+            import traceback
+            fr = sys._current_frames().get(ct.ident)
+            stack = traceback.extract_stack(fr) if fr is not None else []
+            where = [(os.path.basename(f.filename), f.name) for f in stack]
+            stuck_closing = any(fn == 'session.py' and name in ('_close_socket', 'close') for fn, name in where)
+            done.set()
+            ct.join(10)
+            del KEEP[:]
+            th.join(5)
+            for c in cap:
+                try:
+                    c.close()
+                except Exception:   # noqa
+                    pass
+            if stuck_closing:
+                # blocked inside the library's own tear-down, in a call that waits for a peer which - by construction -
+                # says nothing more: without the rescue above the consumer never continues and the descriptor stays open
+                acc.violation('would-hang:abandoning-blocks-in-the-tear-down-of-a-tls-socket-with-a-quiet-peer',
+                              'C13 abandon at event %d (%s): the consumer is stuck closing the socket' % (k, mech), case,
+                              dict(stack=where[-8:], open_fds=[c.fileno() for c in cap]))
+            else:
+                acc.inconclusive.append('real TLS run: consumer not back after 12 s, not inside the tear-down: %r' % (where[-6:],))
+            return
+        seen = box.get('seen', [])
+    else:
+        seen = abandon(lambda: ws.connect(session_class=S, poll=0.1, ping_rate=0), ws, k, mech)
     held_open = [c.fileno() for c in cap if c.fileno() != -1] if KEEP else []
     del KEEP[:]
     done.set()
